@@ -112,6 +112,13 @@ pub fn run(ctx: &Ctx, out: &mut Out) {
         let goals: Vec<String> = (0..7).map(|_| goal(&mut rng, &p)).collect();
         jobs.push((p.text, goals));
     }
+    let ngraph = ctx.budget(150, 5000);
+    for i in 0..ngraph {
+        let mut rng = ctx.rng(3, i as u64);
+        let (text, n) = crate::progen::graph_program(&mut rng, true);
+        let goals: Vec<String> = (0..8).map(|_| crate::progen::graph_goal(&mut rng, n)).collect();
+        jobs.push((text, goals));
+    }
     for (text, goals) in jobs {
         let (_db, program) = match lower_program(&text, chalk_integration::SolverChoice::slg_default()) {
             Ok(x) => x,
@@ -152,11 +159,15 @@ pub fn run(ctx: &Ctx, out: &mut Out) {
                     if mode == "shared" && shared_dead {
                         continue;
                     }
+                    // graph family: a work budget (the SLG solver does not return on some of them, F32),
+                    // and the shape of the reachable cycles refines the classifiers
+                    let graph = text.contains("impl G for N");
+                    let shape = if graph { crate::progen::graph_shape(&text, gtext) } else { "" };
+                    let budget = if graph { Some(if name == "slg" { 2500 } else { 200_000 }) } else { None };
                     let r = if mode == "shared" {
-                        let q = peeled.clone();
-                        catch(std::panic::AssertUnwindSafe(|| shared.solve(&q)))
+                        solve_budget(&shared, peeled, budget)
                     } else {
-                        solve_fresh(&text, peeled, choice)
+                        solve_fresh_budget(&text, peeled, choice, budget)
                     };
                     let kind = answer_kind(&r);
                     out.count(&format!("{}_{}_{}", name, mode, kind));
@@ -164,6 +175,9 @@ pub fn run(ctx: &Ctx, out: &mut Out) {
                     if let Err(site) = &r {
                         let cls = if site.contains("Negative subgoal had delayed_subgoals") {
                             "slg_negative_subgoal_delayed_panic".to_string()
+                        } else if site == BUDGET_PANIC {
+                            out.count(&format!("{}_budget_exceeded_{}", name, shape));
+                            format!("{}_work_budget_exceeded@{}", name, shape)
                         } else {
                             format!("{}_panic", name)
                         };
@@ -174,9 +188,13 @@ pub fn run(ctx: &Ctx, out: &mut Out) {
                         }
                         continue;
                     }
+                    let ctx_tag = if graph && mode == "fresh" { format!("{}-{}-{}", name, mode, shape) } else { format!("{}-{}", name, mode) };
+                    if graph {
+                        out.count(&format!("graph_shape_{}", shape));
+                    }
                     let req = tagged(
                         "judge-ground-auto",
-                        vec![data.clone(), hgoal.clone(), nat(FUEL), atom(kind), atom(&format!("{}-{}", name, mode))],
+                        vec![data.clone(), hgoal.clone(), nat(FUEL), atom(kind), atom(&ctx_tag)],
                     );
                     out.case(req.to_string(), "ACCEPT".to_string(), true, &label);
                 }
